@@ -33,6 +33,15 @@ def check_case(case, acc):
     names = case["names"]
     tree = forest.build_tree(case["shape"], lambda i: Node(names[i]))
     labels = forest.Labels(tree)
+    _once(case, acc, tree, labels)
+    for op in case.get("mutations", []):
+        refs.mutate_tree(tree, op)
+        _once(case, acc, tree, labels)
+        acc.tag("rechecked_after_mutation")
+
+
+def _once(case, acc, tree, labels):
+    names = case["names"]
     before = forest.snapshot(tree, labels)
     index_of = {id(n): i for i, n in enumerate(tree)}
     start = tree[case["start"]]
@@ -99,6 +108,26 @@ def check_case(case, acc):
         raise Violation("extra-edge", "%s: unexpected lines %r (declared ids %r)" % (ctx, sorted(got - want), sorted(ident.values())))
     if list(exporter) != lines:
         raise Violation("re-iteration", "%s: second iteration differs (identifiers must be stable)" % ctx)
+    if declared and not nodename:
+        # interleaved iterations of the same exporter, and an iteration after the tree has grown
+        it1 = iter(exporter)
+        head = [next(it1) for _ in range(1 + len(options) + len(declared))]
+        second = list(exporter)
+        if head + list(it1) != lines or second != lines:
+            raise Violation("identifier-stability", "%s: interleaved iterations of one exporter disagree about identifiers" % ctx)
+        extra = Node("extra-first-child")
+        index_of[id(extra)] = len(tree)
+        start.children = (extra,) + start.children
+        try:
+            declared2, _, _ = expected_structure(tree + [extra], start, stop_ids, hide_ids, maxlevel)
+            body2 = list(exporter)[1 + len(options):]
+            for node, line in zip(declared2, body2):
+                rest = nodefunc(node) if nodefunc else '["%s"]' % esc(node.name)
+                nid = line[len(indent): len(line) - len(rest)]
+                if id(node) in ident and ident[id(node)] != nid:
+                    raise Violation("identifier-stability", "%s: node %r is %s in the first export and %s after a sibling was added" % (ctx, node.name, ident[id(node)], nid))
+        finally:
+            extra.parent = None
     if case.get("to_file"):
         fd, path = tempfile.mkstemp(suffix=".md", prefix="vf-c13-")
         os.close(fd)
@@ -160,6 +189,7 @@ def random_cases(draw):
         "hide": draw(strategies.subsets_of(size, max_size=4)),
         "maxlevel": draw(st.one_of(st.none(), st.integers(0, 6))),
         "to_file": draw(st.integers(0, 9)) == 0,
+        "mutations": draw(strategies.tree_mutations(max_ops=2, rename_values=NAME)),
     }
     if draw(st.booleans()):
         funcs = {}
